@@ -1,6 +1,7 @@
 package lens
 
 import (
+	"bytes"
 	"context"
 	"crypto/sha256"
 	"encoding/hex"
@@ -123,13 +124,18 @@ func (r *sharingRepo) PushSignature(ctx context.Context, mediaType string, blob 
 type recordingSigner struct {
 	inner notation.Signer
 	descs []ocispec.Descriptor
+	sigs  [][]byte // what the signer returned, call by call
 }
 
 func (s *recordingSigner) Sign(ctx context.Context, desc ocispec.Descriptor, opts notation.SignerSignOptions) ([]byte, *signature.SignerInfo, error) {
 	c := desc
 	c.Annotations = copyMap(desc.Annotations)
 	s.descs = append(s.descs, c)
-	return s.inner.Sign(ctx, desc, opts)
+	b, si, err := s.inner.Sign(ctx, desc, opts)
+	if err == nil {
+		s.sigs = append(s.sigs, b)
+	}
+	return b, si, err
 }
 
 // PluginAnnotations forwards the optional annotation interface of the wrapped signer.
@@ -499,6 +505,20 @@ func (l c11) Exec(env *core.Env) *core.Result {
 					if _, ok := refsBefore[d]; !ok {
 						subj, mann = *m.Subject, m.Annotations
 						_ = sigManifest
+						// the attached manifest carries the signature that was made: one layer, present in the store,
+						// holding the bytes the signer returned
+						var envelope []byte
+						if len(m.Layers) == 1 {
+							envelope, _ = content.FetchAll(ctx, reader(), m.Layers[0])
+						}
+						if len(m.Layers) != 1 || len(envelope) == 0 || (len(rs.sigs) > 0 && !bytes.Equal(envelope, rs.sigs[len(rs.sigs)-1])) {
+							res.Violate("C11/attached-manifest-without-its-signature", key, "SignOCI succeeded but the attached signature manifest has %d layers and its envelope reads as %d bytes (the signer returned %d)", len(m.Layers), len(envelope), func() int {
+								if len(rs.sigs) > 0 {
+									return len(rs.sigs[len(rs.sigs)-1])
+								}
+								return -1
+							}())
+						}
 					}
 				}
 			}
